@@ -305,7 +305,10 @@ class Exec:
         if v.k == "none":
             return z3.BoolVal(False)
         if v.k in ("obj", "func", "arr"):
-            return self.fresh("truthy", B)
+            t = self.fresh("truthy", B)
+            if not self.spec_mode:
+                self.labels.setdefault(("truthy",), []).append(t)      # an unknown condition of the Python glue
+            return t
         raise Undecidable(f"truthiness of {v.k}")
 
     def to_int(self, v):
@@ -892,7 +895,7 @@ class Exec:
 
     def ev_Subscript(self, n):
         if self.c.py_mode and isinstance(n.value, ast.Name) and isinstance(n.slice, ast.Constant) and \
-                isinstance(n.slice.value, str) and f"{n.value.id}.{n.slice.value}" in self.c.inputs:
+                isinstance(n.slice.value, (str, int)) and f"{n.value.id}.{n.slice.value}" in self.c.inputs:
             key = f"{n.value.id}.{n.slice.value}"
             if key not in self.vars:
                 self.vars[key] = self.make_input(key, self.c.inputs[key])
@@ -1244,7 +1247,9 @@ class Exec:
                 f = self.spec(a)
                 self.oblige("assert", f"at {kk} `{src_of(n)[:80]}`: {a}", f, n)
             self.bound_vars = saved_b
-        facts = self.c.call_facts.get(fn)
+        occ = self.labels.get(("callocc", fn), 0) + 1
+        self.labels[("callocc", fn)] = occ
+        facts = self.c.call_facts.get(f"{fn}#{occ}") or self.c.call_facts.get(fn)
         if facts:
             arity = facts.get("returns", 1)
             if isinstance(arity, str):
@@ -1834,7 +1839,10 @@ class Exec:
             if self.c.py_mode:
                 try:
                     self.assign_target(tgt, val, s)
-                except Undecidable:
+                except Undecidable as e:
+                    # unmodelled store of the Python glue: its targets get arbitrary values (over-approximation); a
+                    # counter-model found after this point may be an artefact and is reported as undecided
+                    self.labels.setdefault(("abstracted",), []).append(f"{src_of(s)[:80]} ({e})")
                     names, arrays = self.modified([s])
                     self.havoc(names, arrays, [s])
             else:
